@@ -58,14 +58,21 @@ def podCount (prodOnly : Bool) (pods : List PodRef) : Int :=
 inductive RawAnno where
   | absent                 -- no annotation: (nil, nil)
   | unparsable             -- json error: logged, fallback
-  | parsed (raw : Vec)     -- the annotation's list, taken WHOLESALE (a resource it does not name reads 0)
+  | parsed (raw : List (Option Int))  -- per resource: the annotation's entry, `none` = not named
 deriving Repr, DecidableEq
+
+/-- status.allocatable overlaid with the annotation's entries (the annotation wins per resource;
+    the webhook records cpu and memory only, every other resource keeps its status value). -/
+def overlay : Vec → List (Option Int) → Vec
+  | a :: as, r :: rs => r.getD a :: overlay as rs
+  | as, [] => as
+  | [], _ => []
 
 /-- GetNodeRawAllocatableFromNode. -/
 def rawAllocatable (alloc : Vec) : RawAnno → Vec
   | .absent => alloc
   | .unparsable => alloc
-  | .parsed raw => raw
+  | .parsed raw => overlay alloc raw
 
 /-- the places of the package that turn a usage into a percentage / score of a capacity. -/
 inductive CapUse where
